@@ -39,7 +39,7 @@ type opRec struct {
 	failed bool
 }
 
-var c13Kinds = []string{"append", "join", "joinbad", "values", "heads", "rawheads", "getentries", "get", "has", "len", "snapshot", "jsonlog", "tostring", "iterator", "iterstream", "iterbounds", "tomultihash", "setidentity"}
+var c13Kinds = []string{"append", "join", "joinbad", "values", "heads", "rawheads", "getentries", "get", "has", "len", "snapshot", "jsonlog", "tostring", "iterator", "iterstream", "iterbounds", "mergefrom", "tomultihash", "setidentity"}
 
 var c13Points = map[string][]string{
 	"append":      {"append.enter", "append.locked", "append.created", "append.indexed", "append.exit"},
@@ -396,6 +396,10 @@ func (s *scene) do(run *evid.Run, g int, kind string, rng *rand.Rand, exact bool
 			if ok && e.GetHash().String() != h {
 				run.Violate("C13/get-wrong-entry", det(), wit(), "Get(%s) returned another entry", hx.Short(h))
 			}
+			// what a read hands out is complete at any moment: it carries its key and its signature, and verifies
+			if ok && (len(e.GetKey()) == 0 || len(e.GetSig()) == 0) {
+				run.Violate("C13/entry-incomplete", det(), wit(), "Get(%s) returned an entry without key or signature (key %d bytes, signature %d bytes) while other goroutines used the log", hx.Short(h), len(e.GetKey()), len(e.GetSig()))
+			}
 		} else {
 			ok = L.Has(c)
 		}
@@ -497,6 +501,15 @@ func (s *scene) do(run *evid.Run, g int, kind string, rng *rand.Rand, exact bool
 					closed = true
 				}
 			}
+		}
+	case "mergefrom":
+		// ANOTHER log merges from the shared log (it reads the shared log's heads and entries and validates the entry
+		// objects the shared log holds): this must not disturb the shared log or its readers, and must succeed
+		other := s.w.NewLog(3)
+		_, err := other.Join(L, -1)
+		r.Ret = s.tick()
+		if err != nil {
+			run.Violate("C13/merge-from-shared-log-failed", det(), wit(), "a merge FROM the shared log into a fresh log failed during concurrent use: %v", err)
 		}
 	case "iterstream":
 		// entries are handed over one by one through an unbuffered channel; after the first one the
